@@ -72,12 +72,14 @@ def run_plan(pid, tier, seed, plan):
                     use = os.path.join(wd, "%s.%s.sample" % (w["name"], tag))
                     nuse = se.sample_file(scripts, n, max(1, int(n * frac)), seed * 7919 + len(world_notes), use)
                 o = se.replay_and_validate(exe, w["name"], use, nuse, plan["trace_module"], wd, "%s-%s" % (w["name"], tag),
-                                           interp_args=w.get("args", ()), reset_event=plan.get("reset_event", '"e":"rs"'), max_rej=1)
+                                           interp_args=w.get("args", ()), reset_event=plan.get("reset_event", '"e":"rs"'), max_rej=1,
+                                           trace_env=w.get("trace_env"))
                 wexec += o.executions
                 wev += o.events
                 for r in o.rejections:
                     r["exe"] = exe
                     r["interp_args"] = list(w.get("args", ()))
+                    r["trace_env"] = w.get("trace_env")
                 rejections += o.rejections
                 if w is worlds[0] or not any(tag == t for t, _ in counted):
                     counted.append((tag, w["name"]))
@@ -95,7 +97,7 @@ def run_plan(pid, tier, seed, plan):
         seen = set()
         extra_rejections = max(0, len(rejections) - 3)
         for r in rejections[:3]:
-            if not se.confirm_rejection(r["exe"], r, plan["trace_module"], wd, interp_args=r.get("interp_args", ())):
+            if not se.confirm_rejection(r["exe"], r, plan["trace_module"], wd, interp_args=r.get("interp_args", ()), trace_env=r.get("trace_env")):
                 raise MachineryError("rejection did not repeat in isolation: %s" % (r.get("script"),))
             key = finding_key(pid, r)
             if key in seen:
